@@ -863,6 +863,11 @@ def iterator(E, it):
         raise OutOfSubset("iteration over tuple with invariant (unroll instead)")
     if isinstance(t, tuple) and t[0] == "dict":
         return dict_iter(E, v, "keys")
+    if t == "any":
+        # an untyped (JSON) value iterated as a list: length any_len(x), element i = x[i]
+        n = z3.Function("any_len", I, I)(v.z)
+        st.pc.append(n >= 0)
+        return z3.IntVal(0), n, lambda i, v=v: any_item(E, v, vint(i))
     raise OutOfSubset(f"iteration over {t}")
 
 
@@ -2109,6 +2114,8 @@ SPEC_FUNCS = {
     "forall": spec_quant("forall"),
     "exists": spec_quant("exists"),
     "forall_real": spec_quant("forall", R),
+    "forall_any": spec_quant("forall", I, "any"),
+    "exists_any": spec_quant("exists", I, "any"),
     "forall_str": spec_quant("forall", I, "str"),
     "exists_str": spec_quant("exists", I, "str"),
     "implies": spec_implies,
